@@ -40,8 +40,15 @@
      from group to group and round to round ([run_round_ix], Model/PushFetch.v); that run is tied to
      the implementation by the correspondence and judged by the oracle on every scenario that has
      such remotes, and it IS the index-free run wherever no group's remote has an index
-     (C18_noindex_tie).  Completeness with a real index needs the index to be sound for the remote
-     (C12's subject); it is not restated here.
+     (C18_noindex_tie).  C18_push_indexed: a fault-free push over remotes with SOUND (e.g. empty)
+     indexes is complete and leaves every index sound; C18_index_preserved is the per-transfer fact.
+   * Hypotheses on the index and the map only: C18_push_map / C18_fetch_map / C18_checkout_map
+     derive [wf], [indep]/[seqok], [req_closed], "the group's cache holds the request" and "the cache
+     designated for a key is its group's cache" from [idx_ok] (directory entries carry the listing
+     their object parses to), [single_cache] (one cache per remote group), [no_split] (a longer prefix
+     does not re-route entries below a remote-bearing prefix to another CACHE - the complement of the
+     split-directory finding, a little stronger), [placed] (index.save's placement), [caches_apart]
+     and content addressing / closedness of the INITIAL stores.
    * Uploads are atomic in this model ([group_in] sets t_part := false of Model/Transfer.v: no
      truncated leftover, no Partial event - no_partial); C04 covers non-atomic uploads for a single
      transfer.  [wf] therefore also carries C04's trunc_unparsable, which for group_in reads
@@ -53,7 +60,7 @@
    any other shape fails closed); the dense differential check of harness/props/c18.py validates
    the translation. *)
 From Coq Require Import NArith List Bool.
-From DvcData Require Import Base.Val Model.Transfer Gen.StorageMap Model.PushFetch Proofs.TransferBase Proofs.TransferStatus Proofs.TransferLoop Proofs.TransferProofs Proofs.PushFetchResolve Proofs.PushFetchProofs Proofs.PushFetchExamples.
+From DvcData Require Import Base.Val Model.Transfer Gen.StorageMap Model.PushFetch Proofs.TransferBase Proofs.TransferStatus Proofs.TransferLoop Proofs.TransferProofs Proofs.PushFetchResolve Proofs.PushFetchProofs Proofs.PushFetchMap Proofs.PushFetchIndexed Proofs.PushFetchExamples.
 Import ListNotations.
 Open Scope N_scope.
 
@@ -312,6 +319,144 @@ Theorem C18_noindex_tie : forall e k gs w x a b,
   run_groups_ix e k gs w x a b = (run_groups e k gs w a b, x).
 Proof. exact run_groups_ix_noindex. Qed.
 Print Assumptions C18_noindex_tie.
+
+(* ---- hypotheses derived from the index and the map ---- *)
+
+(* collect builds one group per remote *)
+Theorem C18_groups_unique : forall m idx, NoDup (map g_data (collect m idx)).
+Proof. exact collect_nodup. Qed.
+Print Assumptions C18_groups_unique.
+
+(* every group requests a directory object together with every file its listing names - the files a
+   longer prefix re-routes included (iteritems(prefix) does not exclude them): the REQUEST needs no
+   side condition; the split-directory finding is about where the objects ARE (no_split below) *)
+Theorem C18_collect_closed : forall e w m idx,
+  idx_ok e w idx -> forall g, In g (collect m idx) ->
+  forall D s b l f, In D (g_req g) -> is_dir_oid D = true ->
+    lookup D (sget w s) = Some b -> e_parse e b = Some l -> In f l -> In f (g_req g).
+Proof. exact collect_closed. Qed.
+Print Assumptions C18_collect_closed.
+
+(* where all prefixes resolving to one remote resolve to one cache, the cache the mapping designates
+   for a key is the cache of the group of the key's remote *)
+Theorem C18_single_cache_per_group : forall m idx,
+  NoDup (map fst m) -> single_cache m ->
+  forall g k, In g (collect m idx) -> remote_of m k = Some (g_data g) -> cache_of m k = g_cache g.
+Proof. exact cache_of_group. Qed.
+Print Assumptions C18_single_cache_per_group.
+
+(* ... and with index.save's placement and no cache re-routing, each group's cache holds its request *)
+Theorem C18_group_cache_holds : forall w m idx,
+  NoDup (map fst m) -> single_cache m -> no_split m idx -> placed w m idx -> caches_apart m idx ->
+  forall g o, In g (collect m idx) -> In o (g_req g) -> has (sget w (gc g)) o = true.
+Proof. exact group_cache_holds. Qed.
+Print Assumptions C18_group_cache_holds.
+
+(* C18_push with hypotheses on index, map and initial stores only *)
+Theorem C18_push_map : forall e m idx w,
+  NoDup (map fst m) -> ord_ok (e_bord e) -> ord_ok (e_dord e) ->
+  (forall b l f, e_parse e b = Some l -> In f l -> is_dir_oid f = false) ->
+  e_parse e [] = None ->
+  (forall s1 s2 D b1 b2, lookup D (sget w s1) = Some b1 -> lookup D (sget w s2) = Some b2 ->
+                         e_parse e b1 = e_parse e b2) ->
+  (forall s D b, is_dir_oid D = true -> lookup D (sget w s) = Some b -> e_parse e b <> None) ->
+  idx_ok e w idx -> single_cache m -> caches_apart m idx ->
+  (forall s o, e_fails e s o = false) ->
+  forall out,
+  no_split m idx -> placed w m idx ->
+  (forall g, In g (collect m idx) -> closed (e_parse e) (sget w (g_data g))) ->
+  run_round e RPush m idx w = out -> p_err out = None ->
+  forall r,
+    (forall o, In o (designated m idx r) -> has (sget (p_w out) r) o = true) /\
+    (forall o, has (sget (p_w out) r) o = true -> has (sget w r) o = true \/ In o (reachable idx)).
+Proof. exact push_map. Qed.
+Print Assumptions C18_push_map.
+
+Theorem C18_fetch_map : forall e m idx w,
+  ord_ok (e_bord e) -> ord_ok (e_dord e) ->
+  (forall b l f, e_parse e b = Some l -> In f l -> is_dir_oid f = false) ->
+  e_parse e [] = None ->
+  (forall s1 s2 D b1 b2, lookup D (sget w s1) = Some b1 -> lookup D (sget w s2) = Some b2 ->
+                         e_parse e b1 = e_parse e b2) ->
+  (forall s D b, is_dir_oid D = true -> lookup D (sget w s) = Some b -> e_parse e b <> None) ->
+  idx_ok e w idx -> caches_apart m idx ->
+  (forall s o, e_fails e s o = false) ->
+  forall out,
+  (forall g, In g (collect m idx) -> closed (e_parse e) (sget w (gc g))) ->
+  (forall g o, In g (collect m idx) -> In o (g_req g) -> has (sget w (g_data g)) o = true) ->
+  run_round e RFetch m idx w = out -> p_err out = None ->
+  (forall g o, In g (collect m idx) -> In o (g_req g) -> has (sget (p_w out) (gc g)) o = true) /\
+  (forall c o b, lookup o (sget (p_w out) c) = Some b ->
+     lookup o (sget w c) = Some b \/
+     exists g, In g (collect m idx) /\ gc g = c /\ In o (g_req g) /\ In o (reachable idx) /\
+               lookup o (sget w (g_data g)) = Some b).
+Proof. exact fetch_map. Qed.
+Print Assumptions C18_fetch_map.
+
+Theorem C18_checkout_map : forall e m idx w,
+  NoDup (map fst m) -> ord_ok (e_bord e) -> ord_ok (e_dord e) ->
+  (forall b l f, e_parse e b = Some l -> In f l -> is_dir_oid f = false) ->
+  e_parse e [] = None ->
+  (forall s1 s2 D b1 b2, lookup D (sget w s1) = Some b1 -> lookup D (sget w s2) = Some b2 ->
+                         e_parse e b1 = e_parse e b2) ->
+  (forall s D b, is_dir_oid D = true -> lookup D (sget w s) = Some b -> e_parse e b <> None) ->
+  idx_ok e w idx -> single_cache m -> caches_apart m idx ->
+  (forall s o, e_fails e s o = false) ->
+  forall out,
+  (forall g, In g (collect m idx) -> sget w (gc g) = []) ->
+  (forall g o, In g (collect m idx) -> In o (g_req g) -> has (sget w (g_data g)) o = true) ->
+  run_round e RFetch m idx w = out -> p_err out = None ->
+  forall k o r, In (k, o) (entries m idx) -> is_file_oid o = true -> remote_of m k = Some r ->
+    exists b r', lookup o (sget w r') = Some b /\ In (k, Some b) (checkout_view m idx (p_w out)).
+Proof. exact checkout_map. Qed.
+Print Assumptions C18_checkout_map.
+
+Theorem C18_map_hypotheses_satisfiable : forall fails,
+  idx_ok (x_env fails) x_w x_idx /\ single_cache x_map /\ no_split x_map x_idx /\
+  placed x_w x_map x_idx /\ caches_apart x_map x_idx /\
+  (forall s1 s2 D b1 b2, lookup D (sget x_w s1) = Some b1 -> lookup D (sget x_w s2) = Some b2 ->
+                         x_parse b1 = x_parse b2) /\
+  (forall s D b, is_dir_oid D = true -> lookup D (sget x_w s) = Some b -> x_parse b <> None) /\
+  (forall g, In g (collect x_map x_idx) -> closed x_parse (sget x_w (g_data g))).
+Proof. exact x_map_hyps. Qed.
+Print Assumptions C18_map_hypotheses_satisfiable.
+
+(* ---- remotes with a real persistent index ---- *)
+
+(* one transfer keeps a sound destination index sound: after the status phase and after the updates
+   that follow a fully successful transfer it only names objects the destination holds *)
+Theorem C18_index_preserved : forall i x tr fl,
+  wf i -> t_dix i = Some x -> (forall o, ix_has x o = true -> has (t_dst i) o = true) ->
+  o_outcome (transfer i) = TOk tr fl ->
+  exists x', w_dix (final_world i) = Some x' /\ forall o, ix_has x' o = true -> has (dst_after i) o = true.
+Proof. exact transfer_index_sound. Qed.
+Print Assumptions C18_index_preserved.
+
+(* fault-free push, every remote without an index or with a sound one (an empty one is): every
+   designated object is in its remote, and every index is sound for the new contents *)
+Theorem C18_push_indexed : forall e m idx w x out x',
+  NoDup (map fst m) ->
+  run_round_ix e RPush m idx w x = (out, x') -> p_err out = None ->
+  indep RPush (collect m idx) ->
+  (forall g, In g (collect m idx) -> wf (gix e w x g)) ->
+  (forall g ix, In g (collect m idx) -> iget x (g_data g) = Some ix ->
+                forall o, ix_has ix o = true -> has (sget w (g_data g)) o = true) ->
+  (forall s o, e_fails e s o = false) ->
+  (forall g o, In g (collect m idx) -> In o (g_req g) -> has (sget w (gc g)) o = true) ->
+  (forall g D b, In g (collect m idx) -> is_dir_oid D = true ->
+                 lookup D (sget w (gc g)) = Some b -> e_parse e b <> None) ->
+  (forall r o, In o (designated m idx r) -> has (sget (p_w out) r) o = true) /\
+  (forall g ix', In g (collect m idx) -> iget x' (g_data g) = Some ix' ->
+                 forall o, ix_has ix' o = true -> has (sget (p_w out) (g_data g)) o = true).
+Proof. exact push_indexed. Qed.
+Print Assumptions C18_push_indexed.
+
+Theorem C18_indexed_hypotheses_satisfiable : forall fails,
+  (forall g, In g (collect x_map x_idx) -> wf (gix (x_env fails) x_w x_ix g)) /\
+  (forall g ix, In g (collect x_map x_idx) -> iget x_ix (g_data g) = Some ix ->
+                forall o, ix_has ix o = true -> has (sget x_w (g_data g)) o = true).
+Proof. exact x_push_indexed_hyps. Qed.
+Print Assumptions C18_indexed_hypotheses_satisfiable.
 
 (* non-vacuity: a concrete system (prefix inside a directory entry, two remotes) satisfies every
    hypothesis of C18_push / C18_counts / C18_retry for every failure oracle, and its run is the
